@@ -13,6 +13,10 @@ polynomial (one z3 query).  check_zero=True returns (0.0, -inf) only where the
 path condition forces an intermediate to be identically zero.
 Per-tensor positive scale factors are extra symbolic multipliers.
 
+For sliced trees a normalisation lemma is proved in addition: the exponent
+returned by gather_slices is the largest of the slice exponents (a necessary
+real-arithmetic condition for the float-range clause, not the clause itself).
+
 NOT claimed (cannot be encoded): the second sentence of the property (finite
 and correct where IEEE doubles would overflow / underflow for magnitudes in
 1e-100..1e100) -- a floating-point range statement about a multi-step numpy
@@ -162,6 +166,27 @@ def run_tree(item, rec):
                                 rec.refute(ctx, bad, "check_zero exit only when the result is zero", viol, timeout_ms=5000)
                                 return
                             judge(ctx, rec, m, e, ref, "mantissa * 10^exponent == plain contraction", viol)
+                            if cfg:
+                                # normalisation lemma behind the float-range clause (a real-arithmetic NECESSARY
+                                # condition, not the clause itself): the exponent handed back by gather_slices is
+                                # the exponent of one of the slices, and no slice has a larger one
+                                sl = [tree.contract_slice(arrs, i, strip_exponent=True) for i in range(tree.nslices)]
+                                for A in Q.atoms:
+                                    ctx.assume(A > 0)
+                                es = [x[1] for x in sl if isinstance(x, tuple) and isinstance(x[1], FLog)]
+                                m2, e2 = tree.gather_slices(sl)
+                                bads = []
+                                if not es:
+                                    pass
+                                elif not isinstance(e2, FLog) or not any(e2.m == ei.m for ei in es):
+                                    bads.append(z3.BoolVal(True))
+                                else:
+                                    for ei in es:
+                                        d = laurent.mono_mul(ei.m, e2.m, -1)
+                                        if d:
+                                            num, den = laurent.mono_term(d)
+                                            bads.append(num > den)  # some slice exponent exceeds the returned one
+                                rec.refute(ctx, z3.Or(bads) if bads else False, "gathered exponent == max of the slice exponents (normalisation)", viol, reach_probe=False, timeout_ms=1500)
 
                         rec.add_explore(symx.explore(harness, max_paths=(250 if tier == "quick" else 4000), deadline_s=(12 if tier == "quick" else 300), timeout_ms=(300 if tier == "quick" else 1500)))
         rec.sample(dict(inputs=list(inputs), output=output, dims=2, slice_configs=len(slice_cfgs), entries="z3 Reals with Laurent-monomial bookkeeping"))
@@ -245,6 +270,16 @@ def replay(v):
     for ix in case["sliced"]:
         tree.remove_ind_(ix)
     want = symarr.np_reference(inputs, output, size, arrays)
+    if v["label"].startswith("gathered exponent"):
+        try:
+            sl = [tree.contract_slice(arrays, i, strip_exponent=True) for i in range(tree.nslices)]
+            m2, e2 = tree.gather_slices(sl)
+        except Exception as e:  # noqa
+            return True, f"gather_slices raised {e!r}"
+        emax = max(float(x[1]) for x in sl)
+        if np.isfinite(emax) and abs(float(e2) - emax) > 1e-9:
+            return True, f"{','.join(inputs)}->{output} sliced {case['sliced']}: slice exponents {[round(float(x[1]), 3) for x in sl]} but gather_slices returns exponent {float(e2):.3f} (mantissa max {np.max(np.abs(m2)):.3g}): the mantissa is no longer normalised, so it underflows for small scales"
+        return False, "gathered exponent is the largest slice exponent"
     try:
         res = tree.contract(arrays, strip_exponent=True, check_zero=case["check_zero"])
     except Exception as e:  # noqa
